@@ -1,22 +1,26 @@
 (* C13 — compound-file streams are recovered whatever the container's physical layout.
-   Statements only; proofs are in Cfb_proofs.v.  Model (of src/cfb.rs after the hardening and the
-   two C13 fixes: names decoded without BOM sniffing, zero-length entries read as empty), encoder
-   and validity: Cfb.v.
+   Statements only; proofs are in Cfb_proofs.v.  Model (of src/cfb.rs after the hardening, the two
+   earlier C13 fixes — names decoded without BOM sniffing, zero-length entries read as empty — and
+   the fix of audit finding G8: entries are found by their PATH from the root storage, following
+   the child / sibling ids), encoder and validity: Cfb.v.
    Proved: (1) chain following for any FAT / chain / sector contents; totality of the chain walk
    (a cycle ends in an I/O error); (2) recovery of a small stream through the mini FAT inside the
-   root entry's chain; (3) layout independence THROUGH THE BYTES: for every container and every
-   valid layout, reading any stream of cfb_write c l gives its content (C13_layout_independent),
-   hence two containers holding the same stream read the same; the table-level `_partial`
-   statements and the byte-level round trips of each table are kept; (4) totality of Cfb::new and
-   get_stream on ANY input (for C06); (5) names unique per storage only (MS-CFB) and Excel's
-   "Workbook preferred, Book as fallback": the entry the flat scan of Cfb::get_stream reaches is
-   the one in the lowest directory slot among the objects carrying the name
-   (C13_find_dir_first); a stream is read back as soon as no object of the same name sits in a
-   lower slot (C13_layout_independent_first), always when names are distinct over the whole file
-   (C13_layout_independent); Xls::parse_workbook's two lookups read the root storage's Workbook,
-   else its Book, in any directory order (C13_workbook_stream_preferred, _unique, _known), EXCEPT
-   in known class 2 (an object of the same name of another storage in a lower slot:
-   C13_refuted_shadowed_workbook, confirmed on the real code). *)
+   root entry's chain; (3) LOOKUP: on the directory of every written container whose links are a
+   tree over the container's hierarchy (linked_tree: any shape of the sibling trees, in the MS-CFB
+   order or not — a legal MS-CFB tree in particular, C13_legal_tree_linked), Cfb::find is the lookup
+   of the specification on EVERY path (C13_find_entry_resolve) — names need only be unique per
+   storage, the entries may sit anywhere in the directory array; (4) layout independence THROUGH
+   THE BYTES: the stream at any path is read back byte for byte (C13_layout_independent), a path
+   that leads nowhere is not found (C13_path_not_found), two containers holding the same stream at
+   the same path read the same (C13_same_streams_same_read); Xls::parse_workbook reads the ROOT
+   storage's Workbook, else its Book, wherever embedded objects sit (C13_workbook_stream_preferred);
+   has_directory is about the root storage (C13_has_directory_root); (5) no hierarchy written (the
+   root entry links to no child): the flat scan, with its exact precondition (C13_find_dir_first,
+   the C13_flat theorems); (6) totality of Cfb::new, Cfb::children (its fuel is never exhausted) and
+   get_stream on ANY input, cyclic and dangling sibling ids included (for C06).
+   No known class is left: the former classes shadowed_workbook / shadowed_name (audit G8) were
+   repaired in /repo (commit "fix: a compound-file stream was looked up by bare name ...") and
+   their refutation lemmas are replaced by the positive examples at the end of this file. *)
 From Calamine Require Import Prelude Utf16 Cfb Cfb_proofs.
 Open Scope N_scope.
 
@@ -44,18 +48,18 @@ Theorem C13_chain_cycle_is_error : forall fat ss body start p x q,
 Proof. exact chain_repetition_is_error. Qed.
 
 (* ---------------------------------------------------------------- (2) mini stream *)
-Theorem C13_mini_compose : forall (c : cfb) name d r mids,
-  find_dir name (directories c) = Some d -> 0 < d_len d -> d_len d < 4096 ->
+Theorem C13_mini_compose : forall (c : cfb) path d r mids,
+  find_entry (directories c) path = Some d -> 0 < d_len d -> d_len d < 4096 ->
   ssize (mini_sectors c) = 64 ->
   Chain (mini_fats c) (d_start d) mids -> NoDup mids ->
   (forall m, In m mids -> (m + 1) * 64 <= lenN (sdata (mini_sectors c))) ->
-  get_stream c name r
+  get_stream c path r
   = Ok (trunc_spec (d_len d) (concat (map (sector 64 (sdata (mini_sectors c))) mids)), c, r).
 Proof. exact mini_compose. Qed.
 
 (* a zero-length entry is the empty stream, whatever its start-sector field holds *)
-Theorem C13_empty_stream : forall (c : cfb) name d r,
-  find_dir name (directories c) = Some d -> d_len d = 0 -> get_stream c name r = Ok ([], c, r).
+Theorem C13_empty_stream : forall (c : cfb) path d r,
+  find_entry (directories c) path = Some d -> d_len d = 0 -> get_stream c path r = Ok ([], c, r).
 Proof. exact empty_stream. Qed.
 
 Theorem C13_mini_sector_in_root_chain : forall ss body rootids rlen m,
@@ -67,103 +71,133 @@ Theorem C13_mini_sector_in_root_chain : forall ss body rootids rlen m,
                     (sector ss body (nth (N.to_nat (m * 64 / ss)) rootids ENDOFCHAIN))).
 Proof. exact mini_sector_in_root_chain. Qed.
 
-(* ---------------------------------------------------------------- (3) layout independence *)
-(* through the bytes: any fuel from fuel_for l = 1 + number of DIFAT sectors on *)
-(* valid_layout now asks for names unique PER STORAGE only (hier_okb); with names distinct over
-   the whole file (names_unique) every stream is read back, whatever the layout *)
-Theorem C13_layout_independent : forall c l fuel, valid_layout c l -> names_unique c ->
-  (fuel_for l <= fuel)%nat ->
-  forall n b, In (n, b) (c_streams c) -> cfb_get_stream fuel (cfb_write c l) n = Ok b.
+(* ---------------------------------------------------------------- (3) lookup by path (audit G8) *)
+(* a legal MS-CFB tree (sibling trees in the order of MS-CFB 2.6.4) is a tree over the hierarchy;
+   the theorems below ask for the latter only: the right-leaning, unsorted sibling chains simple
+   writers produce are covered *)
+Theorem C13_legal_tree_linked : forall c l, legal_tree c l -> linked_tree c l.
+Proof. exact legal_linked. Qed.
+
+(* Cfb::children on the directory of a written container: the entries collected for the root
+   entry or a storage are exactly the slots of the objects the container puts into it *)
+Theorem C13_children_of_object : forall c l, valid_layout c l -> linked_tree c l ->
+  forall p, p <= N.of_nat (length (c_storages c)) ->
+  forall x, In x (children (parsed_dirs c l) (obj_slot l p)) <-> In x (children_slots c l p).
+Proof. exact children_of_object. Qed.
+
+(* MAIN (lookup): Cfb::find = the lookup of the specification (resolve: the child of that name of
+   the object reached so far, component by component), on every path, for every valid layout and
+   every tree of links — whatever the directory slots, whatever other objects carry the same names
+   in other storages, at any depth.  [plain]: the last name is not empty and not "Root Entry"
+   (only used when the container has no object at all) *)
+Theorem C13_find_entry_resolve : forall c l, valid_layout c l -> linked_tree c l ->
+  forall path, path <> [] -> (forall n, last_opt path = Some n -> plain n) ->
+  find_entry (parsed_dirs c l) path =
+  match resolve c 0 path with Some p => Some (entry_at c l (obj_slot l p)) | None => None end.
+Proof. exact find_entry_resolve. Qed.
+
+(* ---------------------------------------------------------------- (4) layout independence *)
+(* through the bytes: any fuel from fuel_for l = 1 + number of DIFAT sectors on.
+   MAIN (C13): every stream of every container is read back byte for byte by its path, for every
+   valid physical layout (sector size, chains, mini stream or regular sectors, FAT / DIFAT extent,
+   directory order, unused entries, free sectors, padding) whose links are a tree *)
+Theorem C13_layout_independent : forall c l, valid_layout c l -> linked_tree c l ->
+  forall fuel, (fuel_for l <= fuel)%nat ->
+  forall path b, spec_path c path = Some b -> cfb_get_stream fuel (cfb_write c l) path = Ok b.
 Proof. exact layout_independent. Qed.
 
-Theorem C13_same_streams_same_read : forall c1 l1 c2 l2 n b,
-  valid_layout c1 l1 -> valid_layout c2 l2 -> names_unique c1 -> names_unique c2 ->
-  In (n, b) (c_streams c1) -> In (n, b) (c_streams c2) ->
-  cfb_get_stream (fuel_for l1) (cfb_write c1 l1) n = cfb_get_stream (fuel_for l2) (cfb_write c2 l2) n.
+(* a path that leads to no object is not found, wherever objects of that name sit elsewhere: the
+   bare name of a stream that only an embedded object holds, say *)
+Theorem C13_path_not_found : forall c l, valid_layout c l -> linked_tree c l ->
+  forall fuel, (fuel_for l <= fuel)%nat ->
+  forall path, path <> [] -> (forall n, last_opt path = Some n -> plain n) -> resolve c 0 path = None ->
+  cfb_get_stream fuel (cfb_write c l) path = Err ERR_NOT_FOUND.
+Proof. exact path_not_found. Qed.
+
+(* two containers holding the same stream at the same path — any sector sizes, layouts, directory
+   orders, sibling trees, any other objects — read the same bytes *)
+Theorem C13_same_streams_same_read : forall c1 l1 c2 l2 path b,
+  valid_layout c1 l1 -> valid_layout c2 l2 -> linked_tree c1 l1 -> linked_tree c2 l2 ->
+  spec_path c1 path = Some b -> spec_path c2 path = Some b ->
+  cfb_get_stream (fuel_for l1) (cfb_write c1 l1) path = cfb_get_stream (fuel_for l2) (cfb_write c2 l2) path.
 Proof. exact same_streams_same_read. Qed.
 
-(* ---------------------------------------------------------------- (5) duplicate names (audit G8) *)
-(* what Cfb::get_stream / has_directory reach on a written container, names unique per storage
-   only: the entry in the LOWEST directory slot among the objects (storages and streams, of any
-   storage) that carry the name; first_slot computes it from the container and the layout *)
+(* on any Cfb value that holds the written tables (any state of the sector cache) *)
+Theorem C13_get_stream_path : forall c l, valid_layout c l -> linked_tree c l ->
+  forall cf r, written_cfb c l cf r ->
+  forall path b, spec_path c path = Some b -> exists c' r', get_stream cf path r = Ok (b, c', r').
+Proof. exact get_stream_path. Qed.
+
+(* MAIN (Xls::new): Xls::parse_workbook — get_stream(["Workbook"]) or else get_stream(["Book"]) —
+   reads the ROOT storage's Workbook stream, else the root's Book stream (a dual-format file has
+   both), wherever the entries of embedded objects (MBD.../Workbook, a second VBA project) sit in
+   the directory array.  root_storage_named: a root STORAGE called Workbook is outside the
+   statement (the code takes any root entry of that name, storage or stream) *)
+Theorem C13_workbook_stream_preferred : forall c l, valid_layout c l -> linked_tree c l ->
+  forall fuel b, (fuel_for l <= fuel)%nat ->
+  spec_workbook c = Some b -> root_storage_named c WORKBOOK = false ->
+  xls_workbook_stream fuel (cfb_write c l) = Ok b.
+Proof. exact workbook_stream_preferred. Qed.
+
+(* Cfb::has_directory (the tests for _VBA_PROJECT_CUR and EncryptedPackage): an object of the ROOT
+   storage; the written file opens (interface for C20 and the whole-file theorem of C02) *)
+Theorem C13_has_directory_root : forall c l, valid_layout c l -> linked_tree c l ->
+  forall fuel, (fuel_for l <= fuel)%nat ->
+  exists cf r, cfb_new fuel (cfb_write c l) = Ok (cf, r) /\ written_cfb c l cf r /\
+    forall n, plain n ->
+      has_directory cf n = match resolve c 0 [n] with Some _ => true | None => false end.
+Proof. exact has_directory_root. Qed.
+
+(* ---------------------------------------------------------------- (5) no hierarchy written *)
+(* the root entry links to no child (flat_root: its child id is NOSTREAM, the root itself or no
+   entry of the array): Cfb::find scans the flat array for the LAST name of the path, as all
+   lookups did before the fix.  The entry reached is the one in the LOWEST directory slot among
+   the objects (storages and streams, of any storage) that carry the name *)
 Theorem C13_find_dir_first : forall c l n, valid_layout c l -> n <> [] -> n <> ROOT_NAME ->
   find_dir n (parsed_dirs c l) =
   match first_slot c l n with
-  | Some s => Some (dirent_of_item (dir_item c l s))
+  | Some s => Some (entry_at c l s)
   | None => None
   end.
 Proof. exact find_dir_first. Qed.
 
 (* the precondition of the flat lookup, stated exactly: the k-th stream is read back, through the
-   bytes, in every valid layout in which no object of the same name sits in a lower slot *)
-Theorem C13_layout_independent_first : forall c l fuel, valid_layout c l -> (fuel_for l <= fuel)%nat ->
-  forall k n b s, nth_error (c_streams c) k = Some (n, b) -> stream_slot c l k = Some s ->
+   bytes, under its name behind ANY prefix, in every valid layout in which no object of the same
+   name sits in a lower slot *)
+Theorem C13_flat_layout_independent_first : forall c l fuel, valid_layout c l -> flat_root c l ->
+  (fuel_for l <= fuel)%nat ->
+  forall k n b s pre, nth_error (c_streams c) k = Some (n, b) -> stream_slot c l k = Some s ->
   first_slot c l n = Some s ->
-  cfb_get_stream fuel (cfb_write c l) n = Ok b.
-Proof. exact layout_independent_first. Qed.
+  cfb_get_stream fuel (cfb_write c l) (pre ++ [n]) = Ok b.
+Proof. exact flat_layout_independent_first. Qed.
 
-(* Xls::parse_workbook: get_stream("Workbook") or else get_stream("Book").  Whatever slots the
-   entries sit in (Book before or after Workbook in the directory array), the bytes parsed are
-   Workbook's when the lookup of that name ends on that stream; with no object named Workbook,
-   Book's *)
-Theorem C13_workbook_stream_preferred : forall c l fuel, valid_layout c l -> (fuel_for l <= fuel)%nat ->
-  (forall k b s, nth_error (c_streams c) k = Some (WORKBOOK, b) -> stream_slot c l k = Some s ->
-     first_slot c l WORKBOOK = Some s -> xls_workbook_stream fuel (cfb_write c l) = Ok b) /\
-  (forall k b s, first_slot c l WORKBOOK = None ->
-     nth_error (c_streams c) k = Some (BOOK, b) -> stream_slot c l k = Some s ->
-     first_slot c l BOOK = Some s -> xls_workbook_stream fuel (cfb_write c l) = Ok b).
-Proof. exact workbook_stream_preferred. Qed.
+(* names distinct over the whole file: every stream is read back *)
+Theorem C13_flat_layout_independent : forall c l fuel, valid_layout c l -> flat_root c l -> names_unique c ->
+  (fuel_for l <= fuel)%nat ->
+  forall n b pre, In (n, b) (c_streams c) -> cfb_get_stream fuel (cfb_write c l) (pre ++ [n]) = Ok b.
+Proof. exact flat_layout_independent. Qed.
 
 (* names distinct over the whole file: a container holding both streams (a dual-format file) reads
    Workbook in every valid layout; one holding only Book reads Book *)
-Theorem C13_workbook_stream_preferred_unique : forall c l fuel, valid_layout c l -> names_unique c ->
+Theorem C13_flat_workbook_stream_preferred : forall c l fuel, valid_layout c l -> flat_root c l -> names_unique c ->
   (fuel_for l <= fuel)%nat ->
   (forall bw, In (WORKBOOK, bw) (c_streams c) -> xls_workbook_stream fuel (cfb_write c l) = Ok bw) /\
   (forall bb, ~ In WORKBOOK (all_names c) -> In (BOOK, bb) (c_streams c) ->
      xls_workbook_stream fuel (cfb_write c l) = Ok bb).
-Proof. exact workbook_stream_preferred_unique. Qed.
+Proof. exact flat_workbook_stream_preferred. Qed.
 
-(* any hierarchy: outside known class 2 the bytes parsed are those of the ROOT storage's Workbook
-   stream, else of its Book stream (spec_workbook), in every valid layout *)
-Theorem C13_workbook_stream_known : forall c l fuel k b, valid_layout c l -> (fuel_for l <= fuel)%nat ->
-  spec_workbook c = Some (k, b) -> known_C13 c l = None ->
-  xls_workbook_stream fuel (cfb_write c l) = Ok b.
-Proof. exact workbook_stream_known. Qed.
-
-(* interface for C20: the written file opens and every storage / stream name is the name of an
-   entry of the directory array (has_directory answers true) *)
-Theorem C13_written_names_listed : forall c l fuel, valid_layout c l -> (fuel_for l <= fuel)%nat ->
-  exists cf r, cfb_new fuel (cfb_write c l) = Ok (cf, r) /\
-    forall n, In n (all_names c) ->
-      (exists d, In d (directories cf) /\ d_name d = n) /\ has_directory cf n = true.
-Proof. exact written_names_listed. Qed.
+(* has_directory then answers for every object of the file, whatever storage holds it *)
+Theorem C13_has_directory_flat : forall c l fuel, valid_layout c l -> flat_root c l -> (fuel_for l <= fuel)%nat ->
+  exists cf r, cfb_new fuel (cfb_write c l) = Ok (cf, r) /\ written_cfb c l cf r /\
+    forall n, plain n -> (has_directory cf n = true <-> In n (all_names c)).
+Proof. exact has_directory_flat. Qed.
 
 (* what Cfb::new returns on a written file *)
 Theorem C13_cfb_new_written : forall c l fuel, valid_layout c l -> (fuel_for l <= fuel)%nat ->
   exists cf r, cfb_new fuel (cfb_write c l) = Ok (cf, r) /\ written_cfb c l cf r.
 Proof. exact cfb_new_written. Qed.
 
-(* the table-level statements (kept) *)
-Theorem C13_layout_independent_partial : forall c l, valid_layout c l -> names_unique c ->
-  forall n b, In (n, b) (c_streams c) ->
-  forall ms r, Inv (c_ss c) (body_bytes c l) ms r ->
-  exists c' r', get_stream (parsed_cfb c l ms) n r = Ok (b, c', r').
-Proof. exact layout_independent_partial. Qed.
-
-Theorem C13_has_directory_partial : forall c l ms, valid_layout c l ->
-  forall n, In n (all_names c) -> has_directory (parsed_cfb c l ms) n = true.
-Proof. exact has_directory_partial. Qed.
-
-Theorem C13_same_streams_same_read_partial : forall c1 l1 c2 l2 n b,
-  valid_layout c1 l1 -> valid_layout c2 l2 -> names_unique c1 -> names_unique c2 ->
-  In (n, b) (c_streams c1) -> In (n, b) (c_streams c2) ->
-  forall ms1 r1 ms2 r2, Inv (c_ss c1) (body_bytes c1 l1) ms1 r1 -> Inv (c_ss c2) (body_bytes c2 l2) ms2 r2 ->
-  exists x c1' r1' c2' r2',
-    get_stream (parsed_cfb c1 l1 ms1) n r1 = Ok (x, c1', r1') /\
-    get_stream (parsed_cfb c2 l2 ms2) n r2 = Ok (x, c2', r2').
-Proof. exact same_streams_same_read_partial. Qed.
-
-(* the chains and sector contents the partial theorem rests on, per stream *)
+(* the chains and sector contents the stream theorems rest on, per stream *)
 Theorem C13_big_stream_tables : forall c l n b ch, valid_layout c l ->
   In ((n, b), ch) (stream_chains c l) -> is_big b = true ->
   Chain (fat_table c l) (hd ENDOFCHAIN ch) ch /\ NoDup ch /\
@@ -240,9 +274,17 @@ Theorem C13_no_panic_cfb_new : forall fuel file,
   (lenN file / 512 < N.of_nat fuel -> cfb_new fuel file <> OutOfFuel).
 Proof. exact cfb_new_total. Qed.
 
-Theorem C13_no_panic_get_stream : forall cf name r,
-  get_stream cf name r <> Panic /\ get_stream cf name r <> OutOfFuel.
+Theorem C13_no_panic_get_stream : forall cf path r,
+  get_stream cf path r <> Panic /\ get_stream cf path r <> OutOfFuel.
 Proof. exact get_stream_total. Qed.
+
+(* the loop of Cfb::children (the only new loop of the path lookup) ends within the fuel the model
+   supplies — 2 * entries + 1 pops — on ANY directory array: cyclic, shared and dangling sibling ids
+   included (every entry is pushed-from at most once).  Cfb.children, Cfb.find_entry and
+   Cfb.has_directory are total functions (no outcome): they cannot panic. *)
+Theorem C13_children_fuel_suffices : forall ds seen ch,
+  exists l, children_loop (children_fuel ds) ds seen [ch] [] = Ok l.
+Proof. exact children_fuel_suffices. Qed.
 
 (* ---------------------------------------------------------------- examples (non-vacuity) *)
 Definition ex_small : list N := map (fun i => N.of_nat i mod 251) (seq 0 100).
@@ -252,14 +294,15 @@ Definition ex_c (ss : N) : container :=
      c_streams := [([65], ex_small); ([87; 111; 114; 107; 98; 111; 111; 107], ex_big)];
      c_parents := [] |}.
 (* 512-byte sectors, shuffled: FAT in sector 7, directory in 3, mini FAT in 12, mini stream in 0,
-   the big stream fragmented over ten sectors in no order, sector 8 free, mini sector 1 free *)
+   the big stream fragmented over ten sectors in no order, sector 8 free, mini sector 1 free;
+   no links written (the flat scan) *)
 Definition ex_l : layout :=
   {| l_nsect := 15; l_fat_ids := [7]; l_difat_ids := []; l_dir_ids := [3]; l_minifat_ids := [12];
      l_root_ids := [0]; l_nmini := 3;
      l_chains := [[2; 0]; [14; 2; 9; 1; 13; 4; 11; 5; 10; 6]];
      l_slots := [2; 3; 1]; l_pad := 170; l_size_hi := 4294967295; l_empty_start := 0;
      l_links := [] |}.
-(* 4096-byte sectors, sequential *)
+(* 4096-byte sectors, sequential; a legal MS-CFB tree: VBA on top, A to its left, Workbook to its right *)
 Definition ex_l4 : layout :=
   {| l_nsect := 6; l_fat_ids := [0]; l_difat_ids := []; l_dir_ids := [1]; l_minifat_ids := [2];
      l_root_ids := [3]; l_nmini := 2;
@@ -269,16 +312,18 @@ Definition ex_l4 : layout :=
                  (FREESECT, FREESECT, FREESECT); (FREESECT, FREESECT, FREESECT)] |}.
 
 Example C13_layout_nonvacuous : valid_layout (ex_c 512) ex_l /\ valid_layout (ex_c 4096) ex_l4 /\
-  names_unique (ex_c 512) /\ legal_treeb (ex_c 4096) ex_l4 = true.
+  names_unique (ex_c 512) /\ flat_root (ex_c 512) ex_l /\
+  legal_tree (ex_c 4096) ex_l4 /\ linked_tree (ex_c 4096) ex_l4 /\
+  spec_path (ex_c 4096) [WORKBOOK] = Some ex_big /\ spec_path (ex_c 4096) [[65]] = Some ex_small.
 Proof. repeat split; vm_compute; reflexivity. Qed.
 
 (* through the bytes: the written files are read back by the whole model (header, DIFAT, FAT,
    directory, mini stream), both sector sizes, both kinds of stream *)
 Example C13_bytes_roundtrip_example :
-  cfb_get_stream (fuel_for ex_l) (cfb_write (ex_c 512) ex_l) [65] = Ok ex_small /\
-  cfb_get_stream (fuel_for ex_l) (cfb_write (ex_c 512) ex_l) [87; 111; 114; 107; 98; 111; 111; 107] = Ok ex_big /\
-  cfb_get_stream (fuel_for ex_l4) (cfb_write (ex_c 4096) ex_l4) [65] = Ok ex_small /\
-  cfb_get_stream (fuel_for ex_l4) (cfb_write (ex_c 4096) ex_l4) [87; 111; 114; 107; 98; 111; 111; 107] = Ok ex_big.
+  cfb_get_stream (fuel_for ex_l) (cfb_write (ex_c 512) ex_l) [[65]] = Ok ex_small /\
+  cfb_get_stream (fuel_for ex_l) (cfb_write (ex_c 512) ex_l) [WORKBOOK] = Ok ex_big /\
+  cfb_get_stream (fuel_for ex_l4) (cfb_write (ex_c 4096) ex_l4) [[65]] = Ok ex_small /\
+  cfb_get_stream (fuel_for ex_l4) (cfb_write (ex_c 4096) ex_l4) [WORKBOOK] = Ok ex_big.
 Proof. repeat split; vm_compute; reflexivity. Qed.
 
 Example C13_chain_follow_nonvacuous :
@@ -317,8 +362,8 @@ Definition bom_l : layout :=
 
 Example C13_bom_name_and_empty_start_example :
   valid_layout bom_c bom_l /\
-  cfb_get_stream (fuel_for bom_l) (cfb_write bom_c bom_l) [65279; 65] = Ok ex_small /\
-  cfb_get_stream (fuel_for bom_l) (cfb_write bom_c bom_l) [69] = Ok [].
+  cfb_get_stream (fuel_for bom_l) (cfb_write bom_c bom_l) [[65279; 65]] = Ok ex_small /\
+  cfb_get_stream (fuel_for bom_l) (cfb_write bom_c bom_l) [[69]] = Ok [].
 Proof. repeat split; vm_compute; reflexivity. Qed.
 
 (* ---------------------------------------------------------------- dual-format files, duplicate names *)
@@ -340,22 +385,19 @@ Definition book_l : layout :=
      l_size_hi := 0; l_empty_start := ENDOFCHAIN; l_links := [(FREESECT, FREESECT, 3)] |}.
 
 Example C13_workbook_stream_preferred_nonvacuous :
-  valid_layout dual_c dual_l /\ names_unique dual_c /\ legal_treeb dual_c dual_l = true /\
-  In (WORKBOOK, ex_small) (c_streams dual_c) /\ In (BOOK, ex_other) (c_streams dual_c) /\
-  nth_error (c_streams dual_c) 0 = Some (WORKBOOK, ex_small) /\ stream_slot dual_c dual_l 0 = Some 2 /\
-  stream_slot dual_c dual_l 1 = Some 1 /\ first_slot dual_c dual_l WORKBOOK = Some 2 /\
+  valid_layout dual_c dual_l /\ legal_tree dual_c dual_l /\
+  spec_workbook dual_c = Some ex_small /\ root_storage_named dual_c WORKBOOK = false /\
+  stream_slot dual_c dual_l 0 = Some 2 /\ stream_slot dual_c dual_l 1 = Some 1 /\
   xls_workbook_stream (fuel_for dual_l) (cfb_write dual_c dual_l) = Ok ex_small /\
-  valid_layout book_c book_l /\ names_unique book_c /\ ~ In WORKBOOK (all_names book_c) /\
-  first_slot book_c book_l WORKBOOK = None /\ first_slot book_c book_l BOOK = Some 3 /\
+  valid_layout book_c book_l /\ legal_tree book_c book_l /\
+  spec_workbook book_c = Some ex_other /\ root_storage_named book_c WORKBOOK = false /\
   xls_workbook_stream (fuel_for book_l) (cfb_write book_c book_l) = Ok ex_other.
-Proof.
-  repeat split; try (vm_compute; reflexivity); try (left; reflexivity); try (right; left; reflexivity).
-  intros [H|[]]. discriminate H.
-Qed.
+Proof. repeat split; vm_compute; reflexivity. Qed.
 
 (* an embedded workbook: storage MBD0001 holds its own Workbook stream (legal: names are unique
-   per storage).  emb_ok: the root's Workbook sits in the lower slot — read correctly;
-   emb_bad: the embedded one sits in the lower slot (the array position is free) — class 2 *)
+   per storage).  The root's Workbook is read in BOTH orders of the two entries in the directory
+   array (root's in slot 2 / embedded in slot 3, and the other way round: the former known class
+   shadowed_workbook, where Xls::new read the embedded workbook) *)
 Definition emb_c : container :=
   {| c_ss := 512; c_storages := [MBD1];
      c_streams := [(WORKBOOK, ex_small); (WORKBOOK, ex_other)]; c_parents := [0; 0; 1] |}.
@@ -366,28 +408,15 @@ Definition emb_l (root_slot emb_slot : N) : layout :=
      l_links := [(FREESECT, FREESECT, 1); (FREESECT, root_slot, emb_slot);
                  (FREESECT, FREESECT, FREESECT); (FREESECT, FREESECT, FREESECT)] |}.
 
-Example C13_workbook_stream_known_nonvacuous :
-  valid_layout emb_c (emb_l 2 3) /\ legal_treeb emb_c (emb_l 2 3) = true /\
-  names_uniqueb emb_c = false /\
-  spec_workbook emb_c = Some (0%nat, ex_small) /\ known_C13 emb_c (emb_l 2 3) = None /\
-  stream_slot emb_c (emb_l 2 3) 0 = Some 2 /\ first_slot emb_c (emb_l 2 3) WORKBOOK = Some 2 /\
-  xls_workbook_stream (fuel_for (emb_l 2 3)) (cfb_write emb_c (emb_l 2 3)) = Ok ex_small.
-Proof. repeat split; vm_compute; reflexivity. Qed.
+Example C13_embedded_workbook_any_slot_order : forall l, In l [emb_l 2 3; emb_l 3 2] ->
+  valid_layout emb_c l /\ legal_tree emb_c l /\ names_uniqueb emb_c = false /\
+  spec_workbook emb_c = Some ex_small /\ root_storage_named emb_c WORKBOOK = false /\
+  xls_workbook_stream (fuel_for l) (cfb_write emb_c l) = Ok ex_small /\
+  cfb_get_stream (fuel_for l) (cfb_write emb_c l) [MBD1; WORKBOOK] = Ok ex_other.
+Proof. intros l [<-|[<-|[]]]; repeat split; vm_compute; reflexivity. Qed.
 
-(* KNOWN CLASS 2 (shadowed_workbook), audit item G8: a legal container — same two storages, same
-   streams, the embedded Workbook's entry merely placed in a lower directory slot — is read as
-   the EMBEDDED workbook by Xls::new (confirmed on the real code, see notes/C13.md) *)
-Theorem C13_refuted_shadowed_workbook : exists c l bw bx,
-  valid_layout c l /\ legal_treeb c l = true /\ known_C13 c l = Some 2 /\
-  spec_workbook c = Some (0%nat, bw) /\
-  xls_workbook_stream (fuel_for l) (cfb_write c l) = Ok bx /\ bx <> bw.
-Proof.
-  exists emb_c, (emb_l 3 2), ex_small, ex_other.
-  repeat split; try (vm_compute; reflexivity). vm_compute. discriminate.
-Qed.
-
-(* class 2, second shape: the root storage has only Book (a BIFF5 file) and an embedded object
-   has a Workbook: the first lookup succeeds on the embedded stream, in EVERY directory order *)
+(* second shape of the former class: the root storage has only Book (a BIFF5 file) and an embedded
+   object has a Workbook: the root's Book is read, in every directory order *)
 Definition emb5_c : container :=
   {| c_ss := 512; c_storages := [MBD1];
      c_streams := [(BOOK, ex_small); (WORKBOOK, ex_other)]; c_parents := [0; 0; 1] |}.
@@ -398,15 +427,54 @@ Definition emb5_l (root_slot emb_slot : N) : layout :=
      l_pad := 0; l_size_hi := 0; l_empty_start := ENDOFCHAIN;
      l_links := [(FREESECT, FREESECT, 1); (root_slot, FREESECT, emb_slot);
                  (FREESECT, FREESECT, FREESECT); (FREESECT, FREESECT, FREESECT)] |}.
-Theorem C13_refuted_book_and_embedded_workbook : exists c bw bx,
-  spec_workbook c = Some (0%nat, bw) /\ bx <> bw /\
-  forall l, In l [emb5_l 2 3; emb5_l 3 2] ->
-    valid_layout c l /\ legal_treeb c l = true /\ known_C13 c l = Some 2 /\
-    xls_workbook_stream (fuel_for l) (cfb_write c l) = Ok bx.
-Proof.
-  exists emb5_c, ex_small, ex_other. split; [reflexivity|]. split; [vm_compute; discriminate|].
-  intros l [<-|[<-|[]]]; repeat split; vm_compute; reflexivity.
-Qed.
+Example C13_book_and_embedded_workbook : forall l, In l [emb5_l 2 3; emb5_l 3 2] ->
+  valid_layout emb5_c l /\ legal_tree emb5_c l /\
+  spec_workbook emb5_c = Some ex_small /\ root_storage_named emb5_c WORKBOOK = false /\
+  xls_workbook_stream (fuel_for l) (cfb_write emb5_c l) = Ok ex_small.
+Proof. intros l [<-|[<-|[]]]; repeat split; vm_compute; reflexivity. Qed.
+
+(* two VBA projects whose dir streams sit at the SAME depth (the workbook's own and that of an
+   embedded document, Macros/VBA/dir), the embedded one in the lower directory slots: each is read
+   by its path, the bare name is an entry of no storage asked for (the former class
+   shadowed_name); VbaProject::from_cfb asks inside _VBA_PROJECT_CUR/VBA *)
+Definition MACROS : list N := [77; 97; 99; 114; 111; 115].
+Definition DIR : list N := [100; 105; 114].
+Definition vba2_c : container :=
+  {| c_ss := 512; c_storages := [VBA_CUR_NAME; VBA_NAME; MACROS; VBA_NAME];
+     c_streams := [(DIR, ex_small); (DIR, ex_other); (WORKBOOK, ex_small)];
+     c_parents := [0; 1; 0; 3; 2; 4; 0] |}.
+Definition vba2_l : layout :=
+  {| l_nsect := 5; l_fat_ids := [0]; l_difat_ids := []; l_dir_ids := [1; 2]; l_minifat_ids := [3];
+     l_root_ids := [4]; l_nmini := 6; l_chains := [[0; 1]; [2; 3]; [4; 5]];
+     l_slots := [5; 6; 1; 2; 7; 3; 4]; l_pad := 0; l_size_hi := 0; l_empty_start := ENDOFCHAIN;
+     l_links := [(FREESECT, FREESECT, 4);
+                 (FREESECT, FREESECT, 6); (FREESECT, FREESECT, 7);
+                 (FREESECT, FREESECT, 2); (FREESECT, FREESECT, 3);
+                 (FREESECT, FREESECT, FREESECT); (FREESECT, FREESECT, FREESECT);
+                 (1, 5, FREESECT)] |}.
+Example C13_two_vba_projects_same_depth :
+  valid_layout vba2_c vba2_l /\ legal_tree vba2_c vba2_l /\
+  spec_path vba2_c [VBA_CUR_NAME; VBA_NAME; DIR] = Some ex_small /\
+  spec_path vba2_c [MACROS; VBA_NAME; DIR] = Some ex_other /\ resolve vba2_c 0 [DIR] = None /\
+  cfb_get_stream (fuel_for vba2_l) (cfb_write vba2_c vba2_l) [VBA_CUR_NAME; VBA_NAME; DIR] = Ok ex_small /\
+  cfb_get_stream (fuel_for vba2_l) (cfb_write vba2_c vba2_l) [MACROS; VBA_NAME; DIR] = Ok ex_other /\
+  cfb_get_stream (fuel_for vba2_l) (cfb_write vba2_c vba2_l) [DIR] = Err ERR_NOT_FOUND /\
+  (do (cf, r) <- cfb_new (fuel_for vba2_l) (cfb_write vba2_c vba2_l); Ok (vba_stream_path cf DIR))
+  = Ok [VBA_CUR_NAME; VBA_NAME; DIR].
+Proof. repeat split; vm_compute; reflexivity. Qed.
+
+(* damaged links (a cycle through the sibling ids, a child id out of the array): the lookup ends *)
+Definition cyc_l : layout :=
+  {| l_nsect := 4; l_fat_ids := [0]; l_difat_ids := []; l_dir_ids := [1]; l_minifat_ids := [2];
+     l_root_ids := [3]; l_nmini := 4; l_chains := [[0; 1]; [2; 3]]; l_slots := [1; 2; 3];
+     l_pad := 0; l_size_hi := 0; l_empty_start := ENDOFCHAIN;
+     l_links := [(FREESECT, FREESECT, 1); (2, 3, 77); (1, 3, FREESECT); (2, 1, 0)] |}.
+Example C13_cyclic_links_terminate :
+  valid_layout emb_c cyc_l /\ linked_treeb emb_c cyc_l = false /\
+  (do (cf, r) <- cfb_new (fuel_for cyc_l) (cfb_write emb_c cyc_l);
+   Ok (children (directories cf) 0, children (directories cf) 1, has_directory cf MBD1))
+  = Ok ([1; 2; 3], [], true).
+Proof. repeat split; vm_compute; reflexivity. Qed.
 
 Check C13_chain_follow : forall fat ss body start ids len s r,
   Chain fat start ids -> NoDup ids -> Inv ss body s r ->
@@ -414,43 +482,55 @@ Check C13_chain_follow : forall fat ss body start ids len s r,
   exists s' r',
     get_chain s start fat r len
     = Ok (trunc_spec len (concat (map (sector ss body) ids)), s', r') /\ Inv ss body s' r'.
-Check C13_layout_independent : forall c l fuel, valid_layout c l -> names_unique c ->
-  (fuel_for l <= fuel)%nat ->
-  forall n b, In (n, b) (c_streams c) -> cfb_get_stream fuel (cfb_write c l) n = Ok b.
-Check C13_layout_independent_first : forall c l fuel, valid_layout c l -> (fuel_for l <= fuel)%nat ->
-  forall k n b s, nth_error (c_streams c) k = Some (n, b) -> stream_slot c l k = Some s ->
-  first_slot c l n = Some s ->
-  cfb_get_stream fuel (cfb_write c l) n = Ok b.
-Check C13_workbook_stream_preferred_unique : forall c l fuel, valid_layout c l -> names_unique c ->
-  (fuel_for l <= fuel)%nat ->
-  (forall bw, In (WORKBOOK, bw) (c_streams c) -> xls_workbook_stream fuel (cfb_write c l) = Ok bw) /\
-  (forall bb, ~ In WORKBOOK (all_names c) -> In (BOOK, bb) (c_streams c) ->
-     xls_workbook_stream fuel (cfb_write c l) = Ok bb).
-Check C13_workbook_stream_known : forall c l fuel k b, valid_layout c l -> (fuel_for l <= fuel)%nat ->
-  spec_workbook c = Some (k, b) -> known_C13 c l = None ->
+Check C13_find_entry_resolve : forall c l, valid_layout c l -> linked_tree c l ->
+  forall path, path <> [] -> (forall n, last_opt path = Some n -> plain n) ->
+  find_entry (parsed_dirs c l) path =
+  match resolve c 0 path with Some p => Some (entry_at c l (obj_slot l p)) | None => None end.
+Check C13_layout_independent : forall c l, valid_layout c l -> linked_tree c l ->
+  forall fuel, (fuel_for l <= fuel)%nat ->
+  forall path b, spec_path c path = Some b -> cfb_get_stream fuel (cfb_write c l) path = Ok b.
+Check C13_same_streams_same_read : forall c1 l1 c2 l2 path b,
+  valid_layout c1 l1 -> valid_layout c2 l2 -> linked_tree c1 l1 -> linked_tree c2 l2 ->
+  spec_path c1 path = Some b -> spec_path c2 path = Some b ->
+  cfb_get_stream (fuel_for l1) (cfb_write c1 l1) path = cfb_get_stream (fuel_for l2) (cfb_write c2 l2) path.
+Check C13_workbook_stream_preferred : forall c l, valid_layout c l -> linked_tree c l ->
+  forall fuel b, (fuel_for l <= fuel)%nat ->
+  spec_workbook c = Some b -> root_storage_named c WORKBOOK = false ->
   xls_workbook_stream fuel (cfb_write c l) = Ok b.
-Check C13_layout_independent_partial : forall c l, valid_layout c l -> names_unique c ->
-  forall n b, In (n, b) (c_streams c) ->
-  forall ms r, Inv (c_ss c) (body_bytes c l) ms r ->
-  exists c' r', get_stream (parsed_cfb c l ms) n r = Ok (b, c', r').
+Check C13_legal_tree_linked : forall c l, legal_tree c l -> linked_tree c l.
+Check C13_flat_layout_independent_first : forall c l fuel, valid_layout c l -> flat_root c l ->
+  (fuel_for l <= fuel)%nat ->
+  forall k n b s pre, nth_error (c_streams c) k = Some (n, b) -> stream_slot c l k = Some s ->
+  first_slot c l n = Some s ->
+  cfb_get_stream fuel (cfb_write c l) (pre ++ [n]) = Ok b.
 
 Print Assumptions C13_chain_follow.
 Print Assumptions C13_chain_total.
 Print Assumptions C13_chain_cycle_is_error.
+Print Assumptions C13_legal_tree_linked.
+Print Assumptions C13_children_of_object.
+Print Assumptions C13_find_entry_resolve.
 Print Assumptions C13_layout_independent.
+Print Assumptions C13_path_not_found.
 Print Assumptions C13_same_streams_same_read.
-Print Assumptions C13_written_names_listed.
+Print Assumptions C13_get_stream_path.
+Print Assumptions C13_workbook_stream_preferred.
+Print Assumptions C13_has_directory_root.
+Print Assumptions C13_find_dir_first.
+Print Assumptions C13_flat_layout_independent_first.
+Print Assumptions C13_flat_layout_independent.
+Print Assumptions C13_flat_workbook_stream_preferred.
+Print Assumptions C13_has_directory_flat.
 Print Assumptions C13_cfb_new_written.
 Print Assumptions C13_header_roundtrip.
 Print Assumptions C13_difat_roundtrip.
 Print Assumptions C13_dirs_roundtrip.
 Print Assumptions C13_no_panic_cfb_new.
 Print Assumptions C13_no_panic_get_stream.
+Print Assumptions C13_children_fuel_suffices.
 Print Assumptions C13_mini_compose.
+Print Assumptions C13_empty_stream.
 Print Assumptions C13_mini_sector_in_root_chain.
-Print Assumptions C13_layout_independent_partial.
-Print Assumptions C13_has_directory_partial.
-Print Assumptions C13_same_streams_same_read_partial.
 Print Assumptions C13_big_stream_tables.
 Print Assumptions C13_small_stream_tables.
 Print Assumptions C13_fat_load_roundtrip.
@@ -462,13 +542,8 @@ Print Assumptions C13_bytes_roundtrip_example.
 Print Assumptions C13_chain_follow_nonvacuous.
 Print Assumptions C13_chain_cycle_nonvacuous.
 Print Assumptions C13_bom_name_and_empty_start_example.
-Print Assumptions C13_empty_stream.
-Print Assumptions C13_find_dir_first.
-Print Assumptions C13_layout_independent_first.
-Print Assumptions C13_workbook_stream_preferred.
-Print Assumptions C13_workbook_stream_preferred_unique.
-Print Assumptions C13_workbook_stream_known.
 Print Assumptions C13_workbook_stream_preferred_nonvacuous.
-Print Assumptions C13_workbook_stream_known_nonvacuous.
-Print Assumptions C13_refuted_shadowed_workbook.
-Print Assumptions C13_refuted_book_and_embedded_workbook.
+Print Assumptions C13_embedded_workbook_any_slot_order.
+Print Assumptions C13_book_and_embedded_workbook.
+Print Assumptions C13_two_vba_projects_same_depth.
+Print Assumptions C13_cyclic_links_terminate.
